@@ -626,6 +626,8 @@ var hammerBuilders = map[string]func(rng *gen.Rng, w *mon.W) (hot, churn []hamme
 		h, c := famDecode(rng, 6, 600)
 		h = append(h, famEncode(rng, 8)...)
 		h = append(h, famBaseMult(rng, 6)...)
+		sh, _ := famSchnorrVerify(rng, 3, 0)
+		h = append(h, sh...)
 		return append(h, famDoubleMulti(rng, 3)...), c
 	},
 	"C19": func(rng *gen.Rng, w *mon.W) (hot, churn []hammerOp) {
@@ -669,7 +671,7 @@ var hammerBulk = map[string]func(r *mon.Run, rng *gen.Rng) (int, func(k int)){
 		salt := rng.Bytes(16)
 		return r.N(650000, 5000000), func(k int) {
 			x, _ := secp256k1.NewScalarFromBytes((*[32]byte)(bulkCompressed(salt, k)[1:]))
-			_, _ = secp256k1.RecoverPoint(x, byte(k&3))
+			_, _ = secp256k1.RecoverPoint(x, byte(k&1)) // (ids 2, 3 need x + n < p: almost never)
 		}
 	},
 	"C12": func(r *mon.Run, rng *gen.Rng) (int, func(k int)) {
@@ -679,6 +681,16 @@ var hammerBulk = map[string]func(r *mon.Run, rng *gen.Rng) (int, func(k int)){
 	"C13": func(r *mon.Run, rng *gen.Rng) (int, func(k int)) {
 		salt := rng.Bytes(16)
 		return r.N(700000, 6000000), func(k int) { _, _ = bitcoin.NewSchnorrPublicKey(bulkCompressed(salt, k)[1:]) }
+	},
+	"C18": func(r *mon.Run, rng *gen.Rng) (int, func(k int)) {
+		salt := rng.Bytes(16)
+		return r.N(300000, 3000000), func(k int) {
+			if k&1 == 0 {
+				_, _ = bitcoin.NewSchnorrPublicKey(bulkCompressed(salt, k)[1:])
+			} else {
+				_, _ = secec.NewPublicKey(bulkCompressed(salt, k))
+			}
+		}
 	},
 	"C07": func(r *mon.Run, rng *gen.Rng) (int, func(k int)) {
 		// distinct KEYS through the verifier (whatever it remembers per key)
